@@ -30,10 +30,15 @@ class CallMixin(ExprMixin):
             elif cty in self.CAST_MASK:
                 res.append((s, arith.binop(self, s, ast.BitAnd(), v, T.intval((1 << self.CAST_MASK[cty]) - 1), e.lineno)))
             elif cty in self.CAST_SIGNED:
+                # narrowing to a signed type keeps the low bits and sign-extends them (implementation-defined in C;
+                # this is what gcc and clang do on every supported platform)
                 w = self.CAST_SIGNED[cty]
-                lo, hi = T.intval(-(1 << (w - 1))).t, T.intval((1 << (w - 1)) - 1).t
-                self.oblige(s, "overflow", "cast-to-%s-in-range" % cty.replace(" ", "-"), z3.And(v.t >= lo, v.t <= hi), e.lineno)
-                res.append((s, v))
+                if T.mode() == "bv" and w < T.width():
+                    res.append((s, V(INT, z3.SignExt(T.width() - w, z3.Extract(w - 1, 0, v.t)))))
+                else:
+                    lo, hi = T.intval(-(1 << (w - 1))).t, T.intval((1 << (w - 1)) - 1).t
+                    self.oblige(s, "overflow", "cast-to-%s-in-range" % cty.replace(" ", "-"), z3.And(v.t >= lo, v.t <= hi), e.lineno)
+                    res.append((s, v))
             else:
                 raise Unsupported("C cast to %s (line %s)" % (cty, e.lineno))
         return res
@@ -42,6 +47,8 @@ class CallMixin(ExprMixin):
         ftext = ast.unparse(e.func)
         if ftext == "__cast__" and not self.spec:
             return self.ev_cast(e, st)
+        if ftext == "__undef__" and not self.spec:
+            return [(st, self.fresh(INT, "undef"))]          # an uninitialised C scalar (translated Cython)
         # ---- specification-only forms (arguments are not evaluated eagerly)
         if self.spec and isinstance(e.func, ast.Name):
             n = e.func.id
@@ -350,6 +357,8 @@ class CallMixin(ExprMixin):
                 con = C.BY_FUNC.get((mod, name))
             elif k == "import":
                 con = C.BY_FUNC.get((self.resolve_module(th.module), name))
+            elif k == "modattr":
+                con = C.BY_FUNC.get((mod, name))          # module.function(...) of a contracted function
             elif k == "classattr":
                 owner = th.owner
                 con = C.BY_FUNC.get((getattr(owner, "module", self.module.dotted) or self.module.dotted,
